@@ -27,6 +27,7 @@ import pandas as pd
 from mc.core import Acc, Violation, worker_scratch, exc_signature, VERIF, REPO
 
 PROPERTY = "C08"
+SIZE_MODULES = ['mokapot.brew', 'mokapot.confidence', 'mokapot.picked_protein', 'mokapot.dataset']  # see mc.runner._sized_passes
 LEVEL = "exploration"
 RULE = (
     "case = (seed in {1,2,42}, folds in {2,3,4}, workers in {1,3}, estimator in {Percolator SVM (coefficients), "
